@@ -702,10 +702,16 @@ def _validate_list_match(target: list | tuple, actual: list | tuple) -> Resource
     return ResourceMatch(match=not has_differences, differences=differences)
 
 
+def _typed_set(values: list | tuple) -> set:
+    # `True == 1` and `False == 0` in Python; keep bools apart from numbers so
+    # that a retyped member is a difference.
+    return {(isinstance(value, bool), value) for value in values}
+
+
 def _validate_set_match(target: list | tuple, actual: list | tuple) -> ResourceMatch:
     try:
-        target_set = set(target)
-        actual_set = set(actual)
+        target_set = _typed_set(target)
+        actual_set = _typed_set(actual)
     except TypeError as err:
         if "dict" in f"{err}":
             return ResourceMatch(
@@ -729,12 +735,12 @@ def _validate_set_match(target: list | tuple, actual: list | tuple) -> ResourceM
 
     differences = []
 
-    for missing_value in missing_values:
+    for _, missing_value in missing_values:
         differences.append(
             f"<missing '{missing_value}'>",
         )
 
-    for unexpected_value in unexpected_values:
+    for _, unexpected_value in unexpected_values:
         differences.append(
             f"<unexpectedly found '{unexpected_value}'>",
         )
